@@ -18,6 +18,7 @@ func init() {
 			"R2.2 associativity: the climbing loop continues only on a STRICT 'requested < peek' comparison; every left-associative infix method reads its own token's level before advancing and parses its right operand exactly at that level; assignment operators parse their right side below their own level (right-associative); delimited operands are exempt; " +
 			"R2.3 every keyword of the lexer's table has a consumer in the parser (dispatch case, prefix entry, or an explicit token test) and every token the parser tests for can be produced by the lexer; " +
 			"R2.4 statement boundaries: (a) accept paths of the separator check (= R12.2); (b) restricted productions — no return value is parsed when the next token follows a line break or is ';', '}' or the end of the input, and the climbing loop does not apply a postfix operator that follows a line break; (c) the climbing loop has no other statement cut than these and the smart-semicolon cut. " +
+			"R2.5 the byte test the trivia skipper loops on, folded per byte, is true for space, tab, LF and CR and for nothing outside ECMAScript's ASCII white space. " +
 			"Not decided: that every subset program is accepted and gets the ECMAScript tree (needs the grammar and a run).",
 		notDecided: []string{"acceptance of every subset program / full grammar conformance", "ASI cases that depend on 'offending token not allowed by the grammar'", "CR, LS, PS as line terminators", "numeric literal acceptance (strconv vs ECMAScript)"},
 	})
@@ -49,6 +50,51 @@ func runC02(c *Ctx) {
 	c.rule("R2.4b", "restricted productions: no return value after a line break, and none in front of ';', '}' or the end of the input; no postfix operator applied after a line break")
 	c.floor(3)
 	ruleRestrictedProductions(c, t, a)
+	c.rule("R2.5", "white space: the byte test the trivia skipper loops on is true for space, tab, line feed and carriage return, and for nothing outside ECMAScript's ASCII white space and line terminators (a CR LF source must not produce ILLEGAL tokens, and no other byte may vanish between tokens)")
+	c.floor(1)
+	ruleWhitespaceSet(c)
+}
+
+// ruleWhitespaceSet (R2.5): the predicate the skipper skips with, folded for every byte.
+func ruleWhitespaceSet(c *Ctx) {
+	lf := c.lexFacts()
+	if len(lf.problems) > 0 || lf.skipper == nil {
+		c.unres("lexer analysis", token.NoPos, "not available")
+		return
+	}
+	// by role: byte predicates called in the skipper (and its private helpers) whose true-set contains the space
+	type cand struct {
+		f   *ssa.Function
+		set bset
+	}
+	var cands []cand
+	seen := map[*ssa.Function]bool{}
+	for _, skf := range lf.skipperFns() {
+		allInstrs(skf, func(_ *ssa.BasicBlock, _ int, in ssa.Instruction) {
+			call, ok := in.(*ssa.Call)
+			if !ok {
+				return
+			}
+			g := call.Call.StaticCallee()
+			if s, ok := lf.preds[g]; ok && !seen[g] {
+				seen[g] = true
+				if s.has(' ') {
+					cands = append(cands, cand{g, s})
+				}
+			}
+		})
+	}
+	if len(cands) == 0 {
+		c.unres("white-space test", lf.skipper.Pos(), "the skipper calls no byte predicate that accepts the space (white space is skipped in a form this rule does not read)")
+		return
+	}
+	need := setOf(' ', '\t', '\n', '\r')
+	allowed := setOf(' ', '\t', '\n', '\r', '\v', '\f')
+	for _, cd := range cands {
+		missing := need.minus(cd.set)
+		extra := cd.set.minus(allowed)
+		c.check(missing.empty() && extra.empty(), cd.f.Name()+": the white-space set", cd.f.Pos(), fmt.Sprintf("true for %s", cd.set), fmt.Sprintf("the white-space test misses %s and accepts %s: a source with such a byte between tokens gets ILLEGAL tokens (CR LF line ends), or a byte that is not white space in JavaScript silently disappears", missing, extra))
+	}
 }
 
 // precReaders: functions of package parser that return the per-parser binding power of the peek / current token.
